@@ -113,22 +113,6 @@ def tz_exhaustive(ctx):
             bad += 1
             ctx.violation({"offset_minutes": m, "tzname": name}, {"parsed": repr(back)}, f"parse_timezone({name!r}) == timezone(minutes={m})", "timezone offset does not round trip", lambda f: False)
     ctx.bump("tz_offsets_enumerated", 2879)
-    # offsets that are not whole minutes: datetime.timezone carries them, the documented text format (UTC[+-]hh:mm,
-    # pinned by tests/test_timezones.py::test_invalid_timezone) cannot — recorded finding K19
-    from mashumaro.codecs.basic import BasicDecoder, BasicEncoder
-
-    for td in (datetime.timedelta(seconds=30), datetime.timedelta(hours=1, seconds=30), datetime.timedelta(microseconds=1), -datetime.timedelta(hours=23, minutes=59, seconds=59, microseconds=999999)):
-        tz = datetime.timezone(td)
-        case = {"timezone_offset_seconds": td.total_seconds()}
-        ctx.count(case, True, kind="tz-subminute")
-        try:
-            enc = BasicEncoder(datetime.timezone).encode(tz)
-            back = BasicDecoder(datetime.timezone).decode(enc)
-            ok = back == tz
-        except Exception as e:  # noqa
-            enc, back, ok = locals().get("enc"), repr(e), False
-        if not ok:
-            ctx.violation(case, {"encoded": repr(enc), "decoded": repr(back)[:200]}, "decode(encode(v)) == v", "round trip is not the identity", lambda f: f["id"] == "K19")
     # malformed / boundary strings: model (Tz.parseTz) vs implementation
     import itertools
 
